@@ -396,7 +396,7 @@ func runC11(c runner.Case, env *runner.Env) (res runner.Result) {
 		}
 		if df := inst.DiffState(realShadow, modelShadow); df != "" {
 			sig := "shadow-differs-from-model"
-			if onlyEmptyValueKeys(realShadow, modelShadow, m) {
+			if p.Empty && onlyEmptyValueKeys(realShadow, modelShadow, m) {
 				sig = "shadow-live-empty-value-removed"
 			}
 			res.Violate(sig, fmt.Sprintf("after %s (step %d) the shadow state differs from the model (real vs model): %s", kind, step, df), wit())
@@ -536,19 +536,31 @@ func diffApp(real inst.AppView, model map[string]map[string]string) string {
 	return strings.Join(out, "; ")
 }
 
-// onlyEmptyValueKeys: every differing key has an empty live value in the model.
+// onlyEmptyValueKeys: every differing key is one whose application value is a live empty value (the known
+// finding): present in the application DBI with value "" or a live empty version in the model.
 func onlyEmptyValueKeys(real, model inst.State, m *mirrorModel) bool {
 	any := false
+	check := func(d, k string) bool {
+		mv, inModel := model[d][k]
+		mainV, inMain := m.main[d][k]
+		return (inMain && mainV == "") || (inModel && !mv.Del && mv.Val == "")
+	}
 	for d, sh := range model {
 		for k, mv := range sh {
-			rv, ok := real[d][k]
-			if ok && rv == mv {
+			if rv, ok := real[d][k]; ok && rv == mv {
 				continue
 			}
 			any = true
-			if !(mv.Val == "" && (!mv.Del || m.main[d][k] == "")) {
-				// the model's version is an empty live value, or a key whose application value is empty
-				if _, isEmptyInMain := m.main[d][k]; !(isEmptyInMain && m.main[d][k] == "") {
+			if !check(d, k) {
+				return false
+			}
+		}
+	}
+	for d, sh := range real {
+		for k := range sh {
+			if _, ok := model[d][k]; !ok {
+				any = true
+				if !check(d, k) {
 					return false
 				}
 			}
